@@ -42,6 +42,7 @@ type Obligation struct {
 	Inputs  []ModelVar // input variables for replay
 	ex      *Exec
 	Static  string // statically decided failure reason (no SMT)
+	fullSMT, weakSMT, ufSMT string
 }
 
 type ModelVar struct {
